@@ -705,7 +705,7 @@ def table_classes():
     import http.client
     mods = {'builtins': __import__('builtins'), 'katdal.chunkstore': chunkstore,
             'katdal.chunkstore_s3': chunkstore_s3, 'requests.exceptions': requests.exceptions,
-            'urllib3.exceptions': u3, 'http.client': http.client}
+            'urllib3.exceptions': u3, 'http.client': http.client, 'tokenize': __import__('tokenize')}
     src = open(os.path.join(common.LEAN, 'KatdalModel', 'Generated', 'TablesC08.lean')).read()
     body = src[src.index('def excMro'):src.index('def baseErrorMap')]
     names = re.findall(r'^\s*\("([^"]+)", \[', body, re.M)
